@@ -6,7 +6,12 @@ package otter
 
 func init() {
 	vRegister("ZZ_C03_ExpiredUnswept", ZZ_C03_ExpiredUnswept)
+	vRegister("ZZ_C03_Sync", ZZ_C03_Sync)
 }
+
+// ZZ_C03_Sync: same-goroutine executor and a size bound (Coldest/Hottest, maintenance inside the operations),
+// concrete clock offsets that leave an entry expired but not swept (deadline reached inside the current wheel tick).
+func ZZ_C03_Sync() { zzRunSync("c03s", zzCfgFromParams()) }
 
 func ZZ_C03_ExpiredUnswept() {
 	cfg := zzCfgFromParams()
